@@ -323,6 +323,10 @@ impl InferShapes for ReductionOp<'_> {
             // Missing `axes` reduces all dims.
             (0..ndim).collect()
         };
+        if axes.is_empty() {
+            // Empty `axes` also reduces all dims.
+            axes = (0..ndim).collect();
+        }
         axes.sort();
         axes.dedup();
 
